@@ -499,6 +499,7 @@ CfgFaults(nd) ==
   \cup {[f |-> "UnknownName", depth |-> d] : d \in {d \in {0, 1} : d = 0 \/ Len(nd.f.Distributions.v) > 0}}
   \cup {[f |-> "ParamLen", depth |-> d, delta |-> dl] : <<d, dl>> \in {<<d, dl>> \in {0, 1} \X {-1, 1} : d = 0 \/ Len(nd.f.Distributions.v) > 0}}
   \cup {[f |-> "ParamElemType", depth |-> d, to |-> t] : <<d, t>> \in {<<d, t>> \in {0, 1} \X {"str", "null", "arr"} : d = 0 \/ Len(nd.f.Distributions.v) > 0}}
+  \cup {[f |-> "ParamIndexRange", depth |-> d] : d \in {d \in {0, 1} : d = 0 \/ Len(nd.f.Distributions.v) > 0}}
   \cup {[f |-> "ChildCount", delta |-> dl] : dl \in {dl \in {-1, 1} : dl = 1 \/ Len(nd.f.Distributions.v) > 0}}
   \cup {[f |-> "Truncate"]}
 
@@ -571,6 +572,7 @@ ApplyCfg(nd, ft) ==
     [] ft.f = "WrongType" -> AtDepth(nd, ft.depth, LAMBDA c : SetField(c, ft.field, Blank(ft.to)))
     [] ft.f = "UnknownName" -> AtDepth(nd, ft.depth, LAMBDA c : SetField(c, "Name", Str("no such distribution")))
     [] ft.f = "ParamLen" -> AtDepth(nd, ft.depth, LAMBDA c : SetField(c, "Parameters", [t |-> "badparams"]))
+    [] ft.f = "ParamIndexRange" -> AtDepth(nd, ft.depth, LAMBDA c : SetField(c, "Parameters", [t |-> "badparams"]))   \* an index parameter (constraint cell, state map) far out of range
     [] ft.f = "ParamElemType" -> AtDepth(nd, ft.depth, LAMBDA c : SetField(c, "Parameters", [t |-> "badparams"]))
     [] ft.f = "ChildCount" -> SetField(nd, "Distributions",
                                  Arr(IF ft.delta = -1 THEN DropLast(nd.f.Distributions.v)
